@@ -145,10 +145,14 @@ func (h *legacyHandler) onResourcePackResponseLocked(
 	if peek {
 		queued, _ = h.outstandingPacks.Front()
 	} else {
-		queued = h.outstandingPacks.PopFront()
+		queued, _ = h.outstandingPacks.TryPopFront()
 	}
 
-	e := newPlayerResourcePackStatusEvent(h.player, bundle.Status, bundle.ID, *queued)
+	var packInfo Info // stays empty for a response while no pack is outstanding
+	if queued != nil {
+		packInfo = *queued
+	}
+	e := newPlayerResourcePackStatusEvent(h.player, bundle.Status, bundle.ID, packInfo)
 	event.FireParallel(h.eventMgr, e, func(e *PlayerResourcePackStatusEvent) {
 		if shouldDisconnectForForcePack(e) {
 			h.player.Disconnect(&component.Translation{
